@@ -6,6 +6,7 @@ import (
 	"encoding/binary"
 	"encoding/json"
 	"fmt"
+	"strings"
 	"time"
 
 	"github.com/cloudwego/gopkg/bufiox"
@@ -327,9 +328,79 @@ func bigUnknownMonitor(c *Ctx) {
 	fmt.Printf("MONITOR big unknown-field containers (%d cases): %.1fs\n", k, time.Since(t0).Seconds())
 }
 
+// hand-built sections whose entries repeat one key (4 bytes per pair with empty keys and values: the most pairs a 64 KiB
+// header can hold); later entries win, so the maps hold the last value
+func bigDupHeaderOne(c *Ctx, fam string, bc BigCase) {
+	n := bc.N
+	bad := guarded(func() string {
+		info := []byte{0, 0} // protocol id, no transforms
+		if bc.What == "dupstr" {
+			info = append(info, 0x01, byte(n>>8), byte(n))
+			for i := 0; i < n-1; i++ {
+				info = append(info, 0, 0, 0, 0) // "" -> ""
+			}
+			info = append(info, 0, 0, 0, 4, 'L', 'A', 'S', 'T')
+		} else {
+			info = append(info, 0x10, byte(n>>8), byte(n))
+			for i := 0; i < n-1; i++ {
+				info = append(info, 0, 9, 0, 0) // 9 -> ""
+			}
+			info = append(info, 0, 9, 0, 4, 'L', 'A', 'S', 'T')
+		}
+		for len(info)%4 != 0 {
+			info = append(info, 0)
+		}
+		if len(info) > 65536 {
+			return ""
+		}
+		frame := make([]byte, 14, 14+len(info)+5)
+		binary.BigEndian.PutUint16(frame[4:], 0x1000)
+		binary.BigEndian.PutUint32(frame[8:], 77)
+		binary.BigEndian.PutUint16(frame[12:], uint16(len(info)/4))
+		frame = append(frame, info...)
+		frame = append(frame, "hello"...)
+		binary.BigEndian.PutUint32(frame, uint32(len(frame)-4))
+		for _, how := range []string{"DecodeFromBytes", "Decode"} {
+			var d ttheader.DecodeParam
+			var err error
+			if how == "Decode" {
+				rd := bufiox.NewDefaultReader(&dataSource{data: frame, chunks: []int{4096, 13}})
+				d, err = ttheader.Decode(context.Background(), rd)
+				rd.Release(nil)
+			} else {
+				d, err = ttheader.DecodeFromBytes(context.Background(), frame)
+			}
+			if err != nil {
+				return fmt.Sprintf("%s refused a well-formed frame with %d repeated %s entries: %v", how, n, bc.What[3:], err)
+			}
+			if d.HeaderLen != 14+len(info) || d.PayloadLen != 5 || d.SeqID != 77 {
+				return fmt.Sprintf("%s: HeaderLen %d PayloadLen %d SeqID %d, want %d 5 77", how, d.HeaderLen, d.PayloadLen, d.SeqID, 14+len(info))
+			}
+			if bc.What == "dupstr" && !(len(d.StrInfo) == 1 && d.StrInfo[""] == "LAST" && len(d.IntInfo) == 0) {
+				return fmt.Sprintf("%s: %d repeated str entries decoded to str %d entries (\"\" -> %q), int %d entries", how, n, len(d.StrInfo), d.StrInfo[""], len(d.IntInfo))
+			}
+			if bc.What == "dupint" && !(len(d.IntInfo) == 1 && d.IntInfo[9] == "LAST" && len(d.StrInfo) == 0) {
+				return fmt.Sprintf("%s: %d repeated int entries decoded to int %d entries (9 -> %q), str %d entries", how, n, len(d.IntInfo), d.IntInfo[9], len(d.StrInfo))
+			}
+		}
+		return ""
+	})
+	c.AddEvals(int64(bc.N))
+	if bad != "" {
+		c.GoViolation(fam, "tth/big-"+bc.What, bc, bad)
+	}
+}
+
 func bigHeaderMonitor(c *Ctx, fam string) {
 	t0 := time.Now()
 	k := 0
+	for _, what := range []string{"dupstr", "dupint"} {
+		ns := append(bigCounts(c, 16380), 9999, 13106, 13107, 13108, 13109, 16000, 16379, 16380)
+		for _, n := range ns {
+			bigDupHeaderOne(c, fam, BigCase{What: what, N: n})
+			k++
+		}
+	}
 	for _, what := range []string{"int", "str", "both"} {
 		for _, n := range bigCounts(c, 9000) {
 			bigHeaderOne(c, fam, BigCase{What: what, N: n})
@@ -357,7 +428,11 @@ func init() {
 		goReplays[fam] = func(c *Ctx, raw json.RawMessage) {
 			var bc BigCase
 			if json.Unmarshal(raw, &bc) == nil {
-				bigHeaderOne(c, fam, bc)
+				if strings.HasPrefix(bc.What, "dup") {
+					bigDupHeaderOne(c, fam, bc)
+				} else {
+					bigHeaderOne(c, fam, bc)
+				}
 			}
 		}
 	}
